@@ -29,6 +29,8 @@ BLAME = corpus.blame_text([{'commit': {'hash': 'abcd1234', 'boundary': False, 'a
                             'lineno': i + 1, 'code': l, 'file': None} for i, l in enumerate(RUST_CODE.strip('\n').split('\n'))])
 WORD_DIFF = ('diff --git a/f.txt b/f.txt\nindex 1111111..2222222 100644\n--- a/f.txt\n+++ b/f.txt\n@@ -1,2 +1,2 @@\n'
              'same \x1b[31m[-old-]\x1b[m\x1b[32m{+new+}\x1b[m words\n unchanged\n')
+PLAIN_DIFF = ('diff --git a/src/f.txt b/src/f.txt\nindex 1111111..2222222 100644\n--- a/src/f.txt\n+++ b/src/f.txt\n@@ -1,2 +1,2 @@\n'
+              ' unchanged\n-old\n+new\n')
 GREP_PLAIN = 'src/main.rs:10:fn main() {\nsrc/main.rs:12:    let x = 1;\nsrc/lib.rs:3:pub fn f() {}\n'
 RG_JSON = corpus.rg_json_text([('src/main.rs', [(10, 'match', 'fn main() {', [(0, 2)]), (12, 'context', '    let x = 1;', [])])])
 GIT_GREP_COLOR = corpus.grep_text_git_color([('src/main.rs', [(10, 'match', 'fn main() {', [(0, 2)])])], True)
@@ -50,6 +52,11 @@ SCENARIOS = {
     'known/git-diff-word-diff-sbs-vs-none': (['--side-by-side', 'git', 'diff', '--color-words'], None, ['git', 'verif-neutral-parent'], WORD_DIFF, 'GitDiff', 'None'),
     'known/git-show-file-vs-git-grep': (['git', 'show', 'HEAD:src/f.rs'], None, ['git', 'grep', 'x'], RUST_CODE, 'GitShow', 'GitGrep'),
     'stdin/git-diff-word-diff-ln': (['--line-numbers'], WORD_DIFF, ['git', 'diff', '--word-diff'], None, None, 'GitDiff'),
+    # options whose handling asks for the calling process more than once per line (relative paths, hyperlinks): a query made
+    # while the answer of another one is still held must not block
+    'stdin/none-relative-paths': (['--relative-paths'], PLAIN_DIFF, ['git', 'verif-neutral-parent'], None, None, 'None'),
+    'stdin/git-diff-relative-paths-hyperlinks': (['--relative-paths', '--hyperlinks', '--line-numbers'], PLAIN_DIFF, ['git', 'diff'], None, None, 'GitDiff'),
+    'known/git-show-relative-paths': (['--relative-paths', 'git', 'show'], None, ['git', 'verif-neutral-parent'], PLAIN_DIFF, 'GitShow', 'None'),
     # delta launches a command it has no description for (nothing is published): queries must be answered by the
     # background determination, under every schedule, and never wait for ever
     'launched-unparsed/git-status-vs-git-grep': (['--line-numbers', 'git', 'status'], None, ['git', 'grep', '-n', 'x'], GREP_PLAIN, None, 'GitGrep'),
